@@ -183,7 +183,7 @@ CHECKS = {
               dict(engine="hubnet", test="TestC17Hub", shrinktime="1s", quick=dict(checks=4, shards=4, timeout=1200),
                    thorough=dict(checks=40, shards=4, timeout=6000), env=dict(VERIF_BATCH="8")),
               # the real zeroconf provider over real multicast sockets: the managers' views follow announcements and withdrawals
-              dict(engine="zcnet", test="TestC17ZC", shrinktime="1s", may_stop_early=True, quick=dict(checks=4, shards=1, timeout=900),
+              dict(engine="zcnet", test="TestC17ZC", shrinktime="1s", may_stop_early=True, quick=dict(checks=6, shards=1, timeout=900),
                    thorough=dict(checks=40, shards=2, timeout=6000), env=dict(VERIF_BATCH="3"))],
         assumptions=["removes with invalid TXT for a known service are not generated (neither provider produces them; the statement leaves them open)"],
     ),
